@@ -37,6 +37,8 @@ for prop in sys.argv[2:]:
             scope['outside_reach'][oid] = {'reason': why, 'tier': tier, 're_calls': r['trace'].get('re_calls', 0), 'native_max_dev': w['dev'] if w else None}
             print('outside_reach:', oid, why)
     scope.setdefault('calibrated', {})['%s/%s' % (prop, tier)] = {'obligations': n, 'discharged': ok, 'wall_s': round(time.time() - t0)}
-    print(prop, tier, 'obligations', n, 'discharged', ok, 'wall', round(time.time() - t0))
+    print(prop, tier, 'obligations', n, 'discharged', ok, 'wall', round(time.time() - t0), flush=True)
+    os.makedirs(os.path.dirname(scope_p), exist_ok=True)
+    json.dump(scope, open(scope_p, 'w'), indent=1, sort_keys=True)
 os.makedirs(os.path.dirname(scope_p), exist_ok=True)
 json.dump(scope, open(scope_p, 'w'), indent=1, sort_keys=True)
